@@ -122,8 +122,8 @@ def run(ctx, n, have_model, max_depth=8):
         for d, t, r, dm in zip(docs, texts, res, dom):
             bits = int(dm) if dm.isdigit() else -1
             ctx.hist("theorem_domain", {7: "core+lex_safe+strict_safe", 5: "core+strict_safe (not lex_safe)", 3: "core+lex_safe",
-                                        1: "core only"}.get(bits, f"bits={bits}"))
-            if bits & 3 == 3 and r != "1":
+                                        1: "core only"}.get(bits & 7, f"bits={bits}"))
+            if bits >= 0 and bits & 3 == 3 and r != "1":
                 ctx.correspondence_failure({"doc": d, "text": t}, "document in the domain of lex_emit_core but the extracted lexer "
                                            "model does not produce the shape: theorem and extraction disagree")
         strict = run_driver("syn", ["strict " + enc_str(t) for t in texts])
@@ -244,6 +244,13 @@ def run2(ctx, n, have_model):
             if r in ("2", "3"):
                 ctx.correspondence_failure({"doc": d, "text": t, "core2_shape_check": r},
                                            "hypothesis of text_roundtrip_core2_checked: model lexer on emit(d) does not have the shape doc2_sh d")
+        dom = run_driver("syn", ["domains " + astcodec.enc_doc(d) for d in docs])
+        for d, t, r, dm in zip(docs, texts, res, dom):
+            bits = int(dm) if dm.isdigit() else 0
+            ctx.hist("theorem_domain_core2", "core2+lex_safe2" if bits & 24 == 24 else "core2 only" if bits & 8 else "outside core2")
+            if bits & 24 == 24 and r != "1":
+                ctx.correspondence_failure({"doc": d, "text": t}, "document in the domain of lex_emit_core2 but the extracted lexer model "
+                                           "does not produce the shape: theorem and extraction disagree")
         bad, nl = lexcorr.compare(texts)
         ctx.count(nl)
         for t, i, m in bad[:10]:
